@@ -26,6 +26,7 @@ import TeraModel.Lemmas.PipelineWire
 import TeraModel.Lemmas.PipelineBuiltins
 import TeraModel.Lemmas.PipelineT
 import TeraModel.Props.C07VmT
+import TeraModel.Props.C07CompileV
 import TeraModel.Props.C07Vm
 import TeraModel.Props.C09WF
 namespace Tera.Pipeline
@@ -86,19 +87,18 @@ theorem parsed_ast_compiles (maxDepth : Nat) (toks : List Tok) (t : Template) (s
 its chunks refer to are registered, every chunk `optimize (compile …)` of a scoped AST passes
 p2_vm's `checkChunk`.
 
-Status.  PROVED for all programs (the three theorems below): the optimiser never panics on
-compiled code and its output decodes (`compiled_optimized_stored_partial`); the optimised listing
-passes the verified checker of the abstract stack machine, `WellFormed.verify`
-(`compiled_optimized_wellformed`: p2_compiler + bC_opt's "optimize preserves the checker's
-acceptance"); and that listing IS the wire form of the typed chunk the composed model stores and
-runs (`stored_chunks_wellformed`).  NOT proved: the step from `WellFormed.verify` to
-`Vm.checkChunk` — p2_vm's checker additionally tracks three per-slot facts (the kwargs slot is a
-map, an operand an error is reported on has a span, a slice bound the compiler loaded is fine)
-and INFERS its table by a bounded forward pass (`Vm.infer`, not proved complete); bC_opt states
-what a proof needs in `C09WF.optimize_preserves_vverify_full`.  Because of that gap the composed
-`addTemplates` RUNS `checkChunk` on every chunk it stores (translation validation; outcome
-`unchecked`), which makes P5 unconditional; cpipe measures that `unchecked` never occurs (0 of
-343 861 accepted environments in the thorough run). -/
+Status.  PROVED for all programs, in CERTIFICATE form (`compiled_optimized_checked_T` below): the
+stored chunk has a table accepted by `Vm.verify` — everything `checkChunk` asks except that
+`checkChunk` INFERS its table with a bounded forward pass (`Vm.infer`), whose completeness nobody
+proves; p2_vm's `checkChunkT` / `EnvOKT` take the table as given, and `render_never_panics_T`
+(P5) uses that form, so no theorem depends on `infer`.  Also proved for all programs: the
+optimiser never panics on compiled code and its output decodes
+(`compiled_optimized_stored_partial`); the optimised listing passes the verified checker of the
+abstract stack machine `WellFormed.verify` (`compiled_optimized_wellformed`); that listing IS the
+wire form of the typed chunk the composed model stores and runs (`stored_chunks_wellformed`).
+The composed `addTemplates` still RUNS `checkChunk` on every chunk it stores (outcome
+`unchecked`): by `add_checker_run_redundant` that run can only fail if `infer` misses a table that
+exists; cpipe measures that it never does (0 of 343 861 accepted environments, thorough run). -/
 def compiled_optimized_checked_full : Prop :=
   ∀ (t : Template) (name : String) (c : Compiler.Compiled) (env : Vm.Env),
     Compiler.templateScoped t = true → Compiler.compileTemplate t = .ok c →
@@ -187,6 +187,35 @@ theorem stored_chunks_wellformed (maxDepth : Nat) (toks : List Tok) (t : Templat
   simp only [Optimize.Outcome.ok.injEq] at ho
   subst ho
   exact ⟨ch, hch, hw, hv, h1, h2, h3⟩
+
+/-- the compiler bridge `CompileVVerify` holds: p2_compiler's `C07CompileV.nodes_vverify` -/
+theorem compileVVerify_holds : CompileVVerify :=
+  fun ns hsc => C07CompileV.nodes_vverify ns hsc
+
+/-- **P3 `compiled_optimized_checked` in certificate form — PROVED for all programs.**  For every
+template the parser model accepts and every chunk of it (main, blocks, component bodies), the chunk
+`storeChunk` stores — `optimize (compile …)`, typed — has a table accepted by p2_vm's value-level
+checker `Vm.verify` (all of `checkChunk` except the two environment conjuncts, which are P4's
+`buildEnv_prov`, and with the table GIVEN instead of inferred: `Vm.checkChunkT`).  Composition of
+p2_compiler's `C07CompileV.nodes_vverify` (the typed compiled chunk has a table: per-slot
+"is a map / has a span / is a fine slice bound" facts included) and bC_opt's
+`C09WF.optimize_preserves_vverify` (optimize preserves the checker's acceptance) through the
+positional decoder of `storeChunk` (Lemmas/PipelineVerify.lean).  What remains of the FULL
+statement `compiled_optimized_checked_full` is only completeness of `Vm.infer`, the bounded
+forward pass with which `checkChunk` finds a table by itself — no longer needed by any theorem
+below (`render_never_panics_T` uses the certificate form). -/
+theorem compiled_optimized_checked_T (maxDepth : Nat) (toks : List Tok) (t : Template)
+    (s : TParser.TState) (h : TParser.parse maxDepth toks = .ok t s) (name : String) :
+    ∃ c, Compiler.compileTemplate t = .ok c ∧ ∀ code ∈ c.chunks,
+      ∃ ch, storeChunk name code = .ok ch ∧ ∃ table, Vm.verify ch.code table = true := by
+  obtain ⟨h1, h2⟩ := TParser.parse_scoped maxDepth toks t s h
+  obtain ⟨c, hc⟩ := compile_ok_of_scoped t h1 h2
+  refine ⟨c, hc, ?_⟩
+  intro code hcode
+  obtain ⟨ns, rfl, hsc⟩ := chunks_scoped_nodes t h1 h2 c hc code hcode
+  obtain ⟨ch, hch⟩ := storeChunk_nodes name ns
+  obtain ⟨tcode, table, htc, hv⟩ := compileVVerify_holds ns hsc
+  exact ⟨ch, hch, storeChunk_vverify name ns tcode table htc hv ch hch⟩
 
 /-! ## P4 — registering never panics -/
 
@@ -305,22 +334,22 @@ the checker's acceptance, instantiated with the positional decoder) → `buildEn
 form of a scoped node list of a REGISTERED template whose call tables an accepting
 `finalize_templates` checked against the registries and the component table:
 `C07Compile.refs_complete`, `Reg.derive_refs_valid`).  Then `C07Vm.vm_render_no_panic_T`. -/
-theorem render_never_panics_T (hcv : CompileVVerify) (cfg : Config)
+theorem render_never_panics_T (cfg : Config)
     (hb : BuiltinsNoPanic cfg.builtins) (sources : List (String × Bytes)) (env : Env)
     (h : addTemplatesT cfg sources = .ok env) (fuel : Fuel) (name : String)
     (block : Option String) (ctx globalCtx : Ctx) :
     ∀ site, Vm.render fuel env name block ctx globalCtx ≠ .panic site :=
-  C07Vm.vm_render_no_panic_T env (addTemplatesT_envOKT hcv cfg hb sources env h) fuel name block
-    ctx globalCtx
+  C07Vm.vm_render_no_panic_T env
+    (addTemplatesT_envOKT compileVVerify_holds cfg hb sources env h) fuel name block ctx globalCtx
 
-/-- **`engine_never_panics_T`** (given the compiler bridge `CompileVVerify`): source text in,
+/-- **`engine_never_panics_T`**: source text in,
 outcome out, with NO run of a checker anywhere in the model: for every configuration with validated
 delimiters, every batch of valid UTF-8 sources, every template name, context and fuel,
 `renderSourcesT` answers a non-panic outcome of the VM, `Err(SyntaxError)`, or an error VALUE of
 `finalize_templates` — never `panic`, never `outOfFuel` at add time, never `internal`, and
 `unchecked` does not exist in this pipeline.  Hypothesis left: the built-in parameters do not
 panic (discharged for the Lean-side instance in `engine_never_panics_T_concrete`). -/
-theorem engine_never_panics_T (hcv : CompileVVerify) (cfg : Config)
+theorem engine_never_panics_T (cfg : Config)
     (hd : cfg.delims.accepted = true) (hb : BuiltinsNoPanic cfg.builtins)
     (sources : List (String × Bytes)) (hv : ∀ p ∈ sources, valid p.2 = true)
     (fuel : Fuel) (name : String) (ctx : Ctx) :
@@ -329,8 +358,51 @@ theorem engine_never_panics_T (hcv : CompileVVerify) (cfg : Config)
   unfold renderSourcesT
   rcases addTemplatesT_total cfg hd sources hv with ⟨env, h⟩ | ⟨e, h, hval⟩
   · rw [h]
-    exact Or.inl ⟨_, rfl, render_never_panics_T hcv cfg hb sources env h fuel name none ctx []⟩
+    exact Or.inl ⟨_, rfl, render_never_panics_T cfg hb sources env h fuel name none ctx []⟩
   · rw [h]; exact Or.inr ⟨e, rfl, hval⟩
+
+/-- **`engine_never_panics_T_concrete`**: the same with the Lean-side built-in instance
+(`BuiltinsM.model`): NO hypothesis left but validated delimiters and valid UTF-8 sources; the float
+printer and the float arithmetic are arbitrary.  From source bytes to rendered text, through the
+models of all six stages, no checker run, no panic. -/
+theorem engine_never_panics_T_concrete (d : Delims) (hd : d.accepted = true)
+    (prefixes suffixes : List String) (reg : Reg.Registered) (fmt : F64 → List Char) (F : FloatOps)
+    (sources : List (String × Bytes)) (hv : ∀ p ∈ sources, valid p.2 = true)
+    (fuel : Fuel) (name : String) (ctx : Ctx) :
+    let cfg : Config := { delims := d, prefixes := prefixes, suffixes := suffixes, reg := reg,
+                          builtins := BuiltinsM.model fmt F }
+    (∃ o, renderSourcesT cfg sources fuel name ctx = .ok o ∧ ∀ site, o ≠ .panic site) ∨
+    ∃ e, renderSourcesT cfg sources fuel name ctx = .error e ∧ e.value :=
+  engine_never_panics_T _ hd (BuiltinsM.builtinsNoPanic_model fmt F) sources hv fuel name ctx
+
+/-- the model's run of the checker is redundant: whenever `addTemplatesT` answers an environment,
+`Vm.checkChunkT` holds of every chunk of it for SOME table — so `addTemplates` can answer
+`unchecked` only if `Vm.infer` fails to find a table that exists -/
+theorem add_checker_run_redundant (cfg : Config) (hb : BuiltinsNoPanic cfg.builtins)
+    (sources : List (String × Bytes)) (env : Env) (h : addTemplatesT cfg sources = .ok env) :
+    Vm.EnvOKT env :=
+  addTemplatesT_envOKT compileVVerify_holds cfg hb sources env h
+
+/-- the function the driver runs (and cpipe ties to the engine) is `addTemplatesT` followed by the
+checker run: same environment whenever it answers one, and it answers one exactly when
+`addTemplatesT` does and the inferred tables verify -/
+theorem addTemplates_eq_T_then_validate (cfg : Config) (sources : List (String × Bytes)) :
+    addTemplates cfg sources =
+      match addTemplatesT cfg sources with
+      | .error e => .error e
+      | .ok env => validate env := by
+  unfold addTemplates addTemplatesT
+  cases newAll cfg.delims sources with
+  | error e => rfl
+  | ok tds =>
+    simp only
+    cases register cfg tds with
+    | error e => rfl
+    | ok st =>
+      simp only
+      cases buildEnv cfg tds st with
+      | none => rfl
+      | some env => rfl
 
 /-- a nested `interpret` on an environment `addTemplates` returned leaves the caller's stacks as it
 found them (`C07Vm.vm_stacks_restored` transported) -/
